@@ -1,6 +1,4 @@
 //! Harness binary for property C15. `c15 C15 [--seed N --worker I --nworkers N --tier T --out F --replay F]`.
-mod check;
-
 fn main() {
-    vh::runner::main_for(|ctx| check::run(ctx));
+    vh::runner::main_for(|ctx| c15::check::run(ctx));
 }
